@@ -21,6 +21,7 @@ func TestMain(m *testing.M) {
 	vh.Assume("channel 0 only (logical channels are covered with C12); no concurrency; error paths of a failing WriteTo are outside the statement; packet sizes 256..65535 (what a server may negotiate and the 16-bit header length can carry)")
 	vh.Rule("also: Info.DebugLogPackages is on in a quarter of the cases (every package is printed while it is sent / received)")
 	vh.QuietLog()
+	vh.Rule("also: a package whose encoding fails half-way (some bytes produced, then an error), followed by Reset: nothing of it reaches the transport and the next message is exact")
 	vh.Main(m, "C01")
 }
 
